@@ -97,6 +97,13 @@ def correspondence(ctx, violations, known_hits):
             sub = os.path.join(d, str(i)); os.makedirs(sub, exist_ok=True)
             with open(os.path.join(sub, "p.asm"), "wb") as f:
                 f.write(text.encode("utf-8") if isinstance(text, str) else text)
+            # an object file of the same base name beside the source, younger (even i) or older (odd i) than it, built from
+            # SOMETHING ELSE (a bare HALT): what `run` says about the source may not depend on it
+            with open(os.path.join(sub, "p.lc3"), "wb") as f:
+                f.write(bytes.fromhex("3000f025"))
+            now = time.time()
+            os.utime(os.path.join(sub, "p.asm"), (now - 100, now - 100))
+            os.utime(os.path.join(sub, "p.lc3"), (now, now) if i % 2 == 0 else (now - 5000, now - 5000))
             fl = ["-f", "stack"] if feat else []
             chk = clicommon.run_cli(exe, ["check", "p.asm"] + fl, sub)
             cmp_ = clicommon.run_cli(exe, ["compile", "p.asm", "o.lc3"] + fl, sub)
@@ -151,7 +158,7 @@ def correspondence(ctx, violations, known_hits):
         "rule": "CLI exit status of `lace check`, `lace compile`, `lace run` on the same file under each feature setting, vs each other "
                 "and vs the model's verdict: sources whose only error is a too-distant label reference at EVERY statement position x "
                 "every PC-relative instruction (forwards and backwards), sources using each stack mnemonic, the C04 boundary corpus, "
-                "random valid/invalid/mutated programs; sources given as the BYTES of their file (model CliFile.v, case kind OBJB): 25 ill-formed UTF-8 sequences (over-long forms, surrogates, beyond U+10FFFF, truncated, stray continuation, Latin-1) and 14 boundary well-formed ones, each in a comment, a string literal, after `.end`, at end of file, in label position, plus random high bytes - check / compile (and the object bytes) / run / bare `lace FILE` / debug against each other and the model; a real `lace watch` process without and one with `-f stack`, each driven through a designed sequence of file rewrites (re-checks that fail after recording labels, then sources that reuse or only reference those labels, emission-only errors, the stack extension's mnemonics as instructions and as labels), each re-check's verdict compared with the model's; "
+                "random valid/invalid/mutated programs; beside every source lies an unrelated object file of the same base name, younger or older than the source; sources given as the BYTES of their file (model CliFile.v, case kind OBJB): 25 ill-formed UTF-8 sequences (over-long forms, surrogates, beyond U+10FFFF, truncated, stray continuation, Latin-1) and 14 boundary well-formed ones, each in a comment, a string literal, after `.end`, at end of file, in label position, plus random high bytes - check / compile (and the object bytes) / run / bare `lace FILE` / debug against each other and the model; a real `lace watch` process without and one with `-f stack`, each driven through a designed sequence of file rewrites (re-checks that fail after recording labels, then sources that reuse or only reference those labels, emission-only errors, the stack extension's mnemonics as instructions and as labels), each re-check's verdict compared with the model's; "
                 "distinct = distinct (source class, verdict)",
         "histogram": hist, "samples": samples, "mismatches": nv, "watch": watch,
     }
